@@ -18,7 +18,8 @@ if len(sys.argv) > 1:
 
 def one(i):
     d = os.path.join(VERIF, "seeded", i)
-    res = mutate.run_on_patch(os.path.join(d, "patch.diff"), PIDS)
+    pf = os.path.join(d, "patch_rebased.diff") if os.path.exists(os.path.join(d, "patch_rebased.diff")) else os.path.join(d, "patch.diff")
+    res = mutate.run_on_patch(pf, PIDS)
     det = {}
     for p, (rc, out) in res.items():
         fired = rc == 1 and ("VIOLATION property=%s" % p) in out
